@@ -51,3 +51,49 @@ fn c17_strict_vs_permissive() {
     }
     println!("CASES c17_programs {n}");
 }
+
+/// errors of one run, as (location, kind) strings, through the VM API
+fn vm_errors(code: &[u8], permissive: bool, gas_limit: usize) -> Option<Vec<String>> {
+    use storage_layout_extractor::{disassembly::InstructionStream, vm::{Config, VM}, watchdog::LazyWatchdog};
+    let code = code.to_vec();
+    std::panic::catch_unwind(move || {
+        let is = InstructionStream::try_from(code.as_slice()).ok()?;
+        let mut vm = VM::new(is, Config::default().with_permissive_errors(permissive).with_gas_limit(gas_limit), LazyWatchdog.in_rc()).ok()?;
+        let r = vm.execute();
+        Some(match r { Ok(()) => vec![], Err(es) => es.payloads().iter().map(|e| format!("{}:{:?}", e.location, e.payload)).collect() })
+    }).ok().flatten()
+}
+
+/// whatever permissive mode still reports, strict mode reports too (permissive only drops jump-target kinds);
+/// running out of gas is an error in both modes, also on the last instruction of a thread
+#[test]
+fn c17_strict_lists_at_least_what_permissive_lists() {
+    std::panic::set_hook(Box::new(|_| {}));
+    let programs: Vec<Vec<u8>> = vec![
+        vec![0x60, 0x01, 0x60, 0xff, 0x57, 0x00],                                  // JUMPI to a non-existent target
+        vec![0x60, 0x01, 0x60, 0x01, 0x57, 0x00],                                  // JUMPI to a non-JUMPDEST
+        vec![0x60, 0xff, 0x56],                                                    // JUMP out of range
+        vec![0x36, 0x60, 0x08, 0x57, 0x60, 0xff, 0x56, 0x00, 0x5b, 0x50, 0x00],   // fork; one arm bad JUMP, other arm underflow
+        vec![0x5f, 0x5f],
+        vec![0x5f, 0xff, 0x00],
+        vec![0x36, 0x56, 0x5b, 0x00],
+        vec![0x5f, 0x50, 0x5f, 0x50, 0x5f, 0x50, 0x00],
+    ];
+    let mut cases = 0;
+    for code in &programs {
+        let Some(big) = vm_errors(code, true, 1_000_000) else { continue };
+        for gas in [1usize, 2, 3, 5, 10, 20, 50, 1_000_000] {
+            let (Some(strict), Some(perm)) = (vm_errors(code, false, gas), vm_errors(code, true, gas)) else { continue };
+            for e in &perm {
+                if !strict.contains(e) { witness("C17", "ctl.strict_lists_every_error", format!("code={code:02x?} gas_limit={gas}"), format!("strict lists {strict:?}"), format!("also {e} (reported in permissive mode)")); }
+            }
+            // gas: with a limit of 1 every program here consumes more than the limit on some thread
+            if gas <= 1 && !perm.iter().any(|e| e.contains("GasLimitExceeded")) {
+                witness("C17", "ctl.gas_exhaustion_is_an_error_in_both_modes", format!("code={code:02x?} gas_limit={gas}"), format!("permissive errors {perm:?}"), "GasLimitExceeded".into());
+            }
+            cases += 1;
+        }
+        let _ = big;
+    }
+    println!("CASES c17_lists {cases}");
+}
